@@ -117,6 +117,12 @@ func MatchLine(line string, op logql.BinOp, value string) bool {
 	return false
 }
 
+// declared reads the capability bit directly (not through SupportedOps.Supports, which is code under test): the
+// operators this storage announced.
+func declared(set logqlengine.SupportedOps, op logql.BinOp) bool {
+	return uint64(set)&(uint64(1)<<uint(op)) != 0
+}
+
 // SelectLogs implements logqlengine.Querier.
 func (q *Querier) SelectLogs(_ context.Context, start, end otelstorage.Timestamp, params logqlengine.SelectLogsParams) (iterators.Iterator[logstorage.Record], error) {
 	defer vsched.PauseMapOrder()()
@@ -135,14 +141,17 @@ func (q *Querier) SelectLogs(_ context.Context, start, end otelstorage.Timestamp
 		labels := InitialLabels(r)
 		ok := true
 		for _, m := range params.Labels {
+			if !declared(q.Caps.Label, m.Op) {
+				continue // the storage evaluates what it declared and nothing else: the rest is the engine's to evaluate
+			}
 			if !MatchLabel(labels, string(m.Label), m.Op, m.Value) {
 				ok = false
 				break
 			}
 		}
 		for _, f := range params.Line {
-			if f.IP {
-				continue // never offloaded; ignore defensively
+			if f.IP || !declared(q.Caps.Line, f.Op) {
+				continue // never offloaded, or not declared: ignore
 			}
 			if !MatchLine(r.Line, f.Op, f.Value) {
 				ok = false
